@@ -407,10 +407,24 @@ func verifC14PermMatches(pm *verifC14Perm, r *verifC14Req, absentInvertMatches b
 // ---------------------------------------------------------------------------------------------------------
 // translation through the real code
 
+// verifC14Layer is one RBAC filter on the path of a connection: the network filter of a filter chain or the
+// HTTP filter inside its connection manager. Envoy enforces every layer (allowed = all layers allow); a path
+// without any layer allows everything.
+type verifC14Layer struct {
+	rules *envoy_rbac_v3.RBAC
+	http  bool
+}
+
 type verifC14Compiled struct {
-	prog *verifC14Program
-	rbac *envoy_rbac_v3.RBAC
-	eval *verifC14Eval
+	prog   *verifC14Program
+	layers []verifC14Layer
+	eval   *verifC14Eval
+	// listener family: where the policy was found ("" = direct makeRBAC* translation), the key prefix for
+	// disagreements that are not the translator's, and whether the layers equal the direct translation.
+	where        string
+	keyPrefix    string
+	sameAsDirect bool
+	rootCause    string // listener family: a recognised shape of the delivered policy (e.g. compiled from no intentions)
 	// diagnosis only
 	evalNames   *verifC14Eval // identity regexes with their literal PATH segments (names) regex-quoted
 	evalQuoted  *verifC14Eval // ... and the trust domain too
@@ -476,12 +490,18 @@ func verifC14Intentions(p *verifC14Program) (structs.SimplifiedIntentions, error
 	return out, nil
 }
 
-func verifC14Compile(p *verifC14Program) (*verifC14Compiled, error) {
-	local := rbacLocalInfo{trustDomain: p.TrustDomain, datacenter: verifC14LocalDC, partition: "default"}
+func verifC14Bundles(p *verifC14Program) []*pbpeering.PeeringTrustBundle {
 	var bundles []*pbpeering.PeeringTrustBundle
 	for _, b := range p.Bundles {
 		bundles = append(bundles, &pbpeering.PeeringTrustBundle{PeerName: b.Peer, TrustDomain: b.TrustDomain, ExportedPartition: b.ExportedPartition})
 	}
+	return bundles
+}
+
+// verifC14Direct translates the program with makeRBACNetworkFilter / makeRBACHTTPFilter and unpacks the filter.
+func verifC14Direct(p *verifC14Program) (*envoy_rbac_v3.RBAC, error) {
+	local := rbacLocalInfo{trustDomain: p.TrustDomain, datacenter: verifC14LocalDC, partition: "default"}
+	bundles := verifC14Bundles(p)
 	ixns, err := verifC14Intentions(p)
 	if err != nil {
 		return nil, fmt.Errorf("harness: generated program is not a legal intention set: %w", err)
@@ -513,11 +533,66 @@ func verifC14Compile(p *verifC14Program) (*verifC14Compiled, error) {
 	if !proto.Equal(direct, rules) {
 		return nil, fmt.Errorf("filter rules differ from makeRBACRules output:\nfilter: %s\nrules:  %s", protojson.Format(rules), protojson.Format(direct))
 	}
-	cp := &verifC14Compiled{prog: p, rbac: rules, eval: verifC14NewEval(), evalNames: verifC14NewEval(), evalQuoted: verifC14NewEval(), evalEscaped: verifC14NewEval()}
+	return rules, nil
+}
+
+func verifC14NewCompiled(p *verifC14Program, layers []verifC14Layer) *verifC14Compiled {
+	cp := &verifC14Compiled{prog: p, layers: layers, eval: verifC14NewEval(), evalNames: verifC14NewEval(), evalQuoted: verifC14NewEval(), evalEscaped: verifC14NewEval()}
 	cp.evalNames.identityRegex = func(s string) (string, bool) { return verifC14Requote(s, false, false) }
 	cp.evalQuoted.identityRegex = func(s string) (string, bool) { return verifC14Requote(s, true, false) }
 	cp.evalEscaped.identityRegex = func(s string) (string, bool) { return verifC14Requote(s, true, true) }
+	return cp
+}
+
+func verifC14Compile(p *verifC14Program) (*verifC14Compiled, error) {
+	rules, err := verifC14Direct(p)
+	if err != nil {
+		return nil, err
+	}
+	cp := verifC14NewCompiled(p, []verifC14Layer{{rules: rules, http: p.HTTP}})
+	cp.sameAsDirect = true
 	return cp, nil
+}
+
+// allowed: Envoy's verdict over all layers, and a description of what decided.
+func (cp *verifC14Compiled) allowed(e *verifC14Eval, conn *verifC14Conn) (bool, string, error) {
+	if len(cp.layers) == 0 {
+		return true, "no RBAC filter on this path: everything is allowed", nil
+	}
+	desc := ""
+	for _, l := range cp.layers {
+		lc := *conn
+		lc.HTTP = l.http
+		ok, policy, err := e.Allowed(l.rules, &lc)
+		if err != nil {
+			return false, "", err
+		}
+		kind := "network filter"
+		if l.http {
+			kind = "http filter"
+		}
+		if policy == "" {
+			policy = "no policy matches"
+		} else {
+			policy = "policy " + policy + " matches"
+		}
+		desc = fmt.Sprintf("%s, action %s: %s", kind, l.rules.Action, policy)
+		if !ok {
+			return false, desc, nil
+		}
+	}
+	return true, desc, nil
+}
+
+func (cp *verifC14Compiled) policyJSON() string {
+	if len(cp.layers) == 0 {
+		return "(none)"
+	}
+	var sb strings.Builder
+	for _, l := range cp.layers {
+		sb.WriteString(protojson.Format(l.rules))
+	}
+	return sb.String()
 }
 
 // verifC14Requote rebuilds an identity regex the way it is MEANT: the `[^/]+` wildcards (and the XFCC frame) stay,
@@ -628,7 +703,7 @@ func verifC14CheckOne(f verifkit.F, c *verifkit.Case, rec *verifkit.Rec, cp *ver
 		return
 	}
 	conn := verifC14ConnOf(p, caller)
-	got, policy, err := cp.eval.Allowed(cp.rbac, conn)
+	got, policy, err := cp.allowed(cp.eval, conn)
 	st.checked++
 	c.Step()
 	if err != nil {
@@ -640,7 +715,7 @@ func verifC14CheckOne(f verifkit.F, c *verifkit.Case, rec *verifkit.Rec, cp *ver
 			kind = "invalid-regex"
 		}
 		c.Op(caller)
-		c.Violation(f, "C14/policy-not-evaluable/"+kind, "the delivered RBAC policy cannot be evaluated: %v\npolicy: %s", err, protojson.Format(cp.rbac))
+		c.Violation(f, "C14/policy-not-evaluable/"+kind, "%sthe delivered RBAC policy cannot be evaluated: %v\npolicy: %s", cp.where, err, cp.policyJSON())
 		return
 	}
 	if got {
@@ -669,13 +744,26 @@ func verifC14CheckOne(f verifkit.F, c *verifkit.Case, rec *verifkit.Rec, cp *ver
 		listener = "http"
 	}
 	key := fmt.Sprintf("C14/disagree/%s/%s/rbac-%ss", listener, v.Class, verifC14Action(got))
-	if q, _, qerr := cp.evalNames.Allowed(cp.rbac, conn); qerr == nil && q == v.Allowed {
+	if cp.keyPrefix != "" && !cp.sameAsDirect {
+		// the listener delivers something else than makeRBAC* produces for these intentions: the cause is in
+		// listener generation, not in the translator
+		key = fmt.Sprintf("C14/%s/disagree/%s/%s/rbac-%ss", cp.keyPrefix, listener, v.Class, verifC14Action(got))
+		if cp.rootCause != "" {
+			key = fmt.Sprintf("C14/%s/%s", cp.keyPrefix, cp.rootCause)
+		}
+		if len(cp.layers) == 0 {
+			key = fmt.Sprintf("C14/%s/no-rbac-filter", cp.keyPrefix)
+		}
+	}
+	if len(cp.layers) == 0 {
+		// nothing to diagnose
+	} else if q, _, qerr := cp.allowed(cp.evalNames, conn); qerr == nil && q == v.Allowed {
 		// the verdict is right once service names / partitions in the SPIFFE regexes are taken literally
 		key = "C14/spiffe-regex-unescaped/service-name"
-	} else if q, _, qerr := cp.evalQuoted.Allowed(cp.rbac, conn); qerr == nil && q == v.Allowed {
+	} else if q, _, qerr := cp.allowed(cp.evalQuoted, conn); qerr == nil && q == v.Allowed {
 		// ... once the trust domain is taken literally as well
 		key = "C14/spiffe-regex-unescaped/trust-domain"
-	} else if q, _, qerr := cp.evalEscaped.Allowed(cp.rbac, conn); qerr == nil && q == v.Allowed {
+	} else if q, _, qerr := cp.allowed(cp.evalEscaped, conn); qerr == nil && q == v.Allowed {
 		key = "C14/spiffe-pattern-not-url-escaped"
 	} else if alt := verifC14DecideRank(p, caller, false, true); alt.Defined && alt.Allowed == got &&
 		verifC14DecideRank(p, caller, true, true).Allowed == got {
@@ -688,18 +776,14 @@ func verifC14CheckOne(f verifkit.F, c *verifkit.Case, rec *verifkit.Rec, cp *ver
 		return
 	}
 	c.Op(caller)
-	matched := "no policy matches"
-	if policy != "" {
-		matched = "policy " + policy + " matches"
-	}
 	xf := ""
 	if conn.Headers != nil {
 		xf = "\nx-forwarded-client-cert: " + conn.Headers["x-forwarded-client-cert"]
 	}
 	c.Violation(f, key,
-		"intention semantics: %s (%s)\nproxy policy:        %s (%s, action %s)\nprincipal: %s%s\nrequest: %s\npolicy: %s",
-		verifC14Action(v.Allowed), v.Why, verifC14Action(got), matched, cp.rbac.Action, conn.Principal, xf,
-		verifC14JSON(caller.Req), protojson.Format(cp.rbac))
+		"%sintention semantics: %s (%s)\nproxy policy:        %s (%s)\nprincipal: %s%s\nrequest: %s\npolicy: %s",
+		cp.where, verifC14Action(v.Allowed), v.Why, verifC14Action(got), policy, conn.Principal, xf,
+		verifC14JSON(caller.Req), cp.policyJSON())
 }
 
 func verifC14JSON(v any) string {
@@ -1118,39 +1202,52 @@ func verifC14Run(f verifkit.F, c *verifkit.Case, rec *verifkit.Rec, p *verifC14P
 		return
 	}
 	st := &verifC14Stats{}
+	verifC14CheckAll(f, c, rec, cp, only, st)
+	rec.AddExtraInt("programs", 1)
+	verifC14Classify(c, rec, p, st, cp.layers[0].rules)
+}
+
+// verifC14CheckAll compares one delivered policy with the oracle for every caller (x request) of the universe
+// derived from the program. only != nil: just that caller.
+func verifC14CheckAll(f verifkit.F, c *verifkit.Case, rec *verifkit.Rec, cp *verifC14Compiled, only *verifC14Caller, st *verifC14Stats) {
+	p := cp.prog
 	if only != nil {
-		verifC14CheckOne(f, c, rec, cp, only, st)
-	} else {
-		callers := verifC14Callers(p)
-		var reqs []verifC14Req
-		if p.HTTP {
-			reqs = verifC14Requests(p)
+		one := *only
+		verifC14CheckOne(f, c, rec, cp, &one, st)
+		return
+	}
+	callers := verifC14Callers(p)
+	var reqs []verifC14Req
+	if p.HTTP {
+		reqs = verifC14Requests(p)
+	}
+	for i := range callers {
+		cl := callers[i]
+		verifC14Identify(p, &cl)
+		if !p.HTTP {
+			verifC14CheckOne(f, c, rec, cp, &cl, st)
+			continue
 		}
-		for i := range callers {
-			cl := callers[i]
-			verifC14Identify(p, &cl)
-			if !p.HTTP {
-				verifC14CheckOne(f, c, rec, cp, &cl, st)
-				continue
-			}
-			// the request matters only when an L7 intention decides; other callers get three requests
-			cl.Req = &reqs[0]
-			lim := len(reqs)
-			if v := verifC14Decide(p, &cl, false); !v.L7 && lim > 3 {
-				lim = 3
-			}
-			for ri := 0; ri < lim; ri++ {
-				cr := cl
-				cr.Req = &reqs[ri]
-				verifC14CheckOne(f, c, rec, cp, &cr, st)
-			}
+		// the request matters only when an L7 intention decides; other callers get three requests
+		cl.Req = &reqs[0]
+		lim := len(reqs)
+		if v := verifC14Decide(p, &cl, false); !v.L7 && lim > 3 {
+			lim = 3
 		}
-		c.Labelf("callers=%s", verifC14Bucket(len(callers)))
-		if p.HTTP {
-			c.Labelf("requests=%s", verifC14Bucket(len(reqs)))
+		for ri := 0; ri < lim; ri++ {
+			cr := cl
+			cr.Req = &reqs[ri]
+			verifC14CheckOne(f, c, rec, cp, &cr, st)
 		}
 	}
-	rec.AddExtraInt("programs", 1)
+	c.Labelf("callers=%s", verifC14Bucket(len(callers)))
+	if p.HTTP {
+		c.Labelf("requests=%s", verifC14Bucket(len(reqs)))
+	}
+}
+
+// verifC14Classify: evidence counters, labels and the non-triviality rule of a finished case.
+func verifC14Classify(c *verifkit.Case, rec *verifkit.Rec, p *verifC14Program, st *verifC14Stats, rules *envoy_rbac_v3.RBAC) {
 	rec.AddExtraInt("disagreements_checked", st.checked)
 	rec.AddExtraInt("callers_not_asserted_undefined", st.undefined)
 	rec.AddExtraInt("callers_not_asserted_invert_absent_header", st.ambiguous)
@@ -1197,10 +1294,12 @@ func verifC14Run(f verifkit.F, c *verifkit.Case, rec *verifkit.Rec, p *verifC14P
 	if mixedL7 {
 		c.Label("l7-permissions-of-different-actions")
 	}
-	if len(cp.rbac.Policies) == 0 {
+	if rules == nil {
+		c.Label("policy=none")
+	} else if len(rules.Policies) == 0 {
 		c.Label("policy=empty")
 	} else {
-		c.Labelf("policy=%s", cp.rbac.Action)
+		c.Labelf("policy=%s", rules.Action)
 	}
 	if st.nearMissEvaluated {
 		c.Label("caller:near-miss")
@@ -1420,6 +1519,7 @@ func TestVerifC14Programs(t *testing.T) {
 func TestVerifC14Replay(t *testing.T) {
 	rec := verifkit.For("C14")
 	defer rec.Flush()
+	var bases *verifC14Bases // built on first use (listener cases only)
 	for _, path := range verifkit.ReplayFiles("C14") {
 		path := path
 		// one subtest per file: a witness that fires does not hide the others
@@ -1429,6 +1529,17 @@ func TestVerifC14Replay(t *testing.T) {
 				t.Fatalf("%v", err)
 			}
 			if len(rp.Ops) == 0 {
+				return
+			}
+			var head struct {
+				Kind string `json:"kind"`
+			}
+			_ = json.Unmarshal(rp.Ops[0], &head)
+			if head.Kind == "listener-case" {
+				if bases == nil {
+					bases = verifC14MakeBases(t)
+				}
+				verifC14ReplayListener(t, rec, bases, rp.Ops, path)
 				return
 			}
 			var p verifC14Program
